@@ -17,6 +17,9 @@ pub struct Call {
     /// by the second value at once, so that tasks are next polled with several timers already due
     #[serde(default)]
     pub stall: Option<(u16, u16)>,
+    /// the handler spends its time in many waits of this many ms each (2-50) instead of one
+    #[serde(default)]
+    pub slice_ms: Option<u8>,
 }
 
 #[derive(Clone, Debug, Serialize, Deserialize, PartialEq, Eq, Hash)]
@@ -81,7 +84,7 @@ pub fn check(case: &Case, obs: &mut Obs) -> Result<(), Fail> {
                 obs.label("excluded:beyond-horizon");
                 continue;
             }
-            let ctl = Ctl { id: i as u64, delay_ms: c.handler_ms.unwrap_or(0), status_idx: 0, resp_len: 10, resp_hdrs: 0, mode: if c.handler_ms.is_none() { 1 } else { 0 } };
+            let ctl = Ctl { id: i as u64, delay_ms: c.handler_ms.unwrap_or(0), status_idx: 0, resp_len: 10, resp_hdrs: 0, mode: if c.handler_ms.is_none() { 1 } else { c.slice_ms.map_or(0, |s| s.clamp(2, 50)) } };
             let mut req = ctl_request("/c11", &[], &ctl, 64);
             if let Some(h) = &c.header {
                 req.headers_mut().insert("timeout".into(), h.clone());
@@ -99,6 +102,9 @@ pub fn check(case: &Case, obs: &mut Obs) -> Result<(), Fail> {
                 h.abort();
                 let stall_ns = c.stall.map_or(0, |(_, len)| len as u64 * MS);
                 let handler_ns = c.handler_ms.map(|v| v as u64 * MS);
+                // a handler made of many short waits is itself held up by the stall (its remaining waits
+                // only start when the executor resumes); a single wait is not
+                let handler_ns = handler_ns.map(|h| if c.slice_ms.is_some() { h + stall_ns } else { h });
                 let fits_server = match (handler_ns, pred.ds) { (Some(h), Some(ds)) => h + tol < ds, (Some(_), None) => true, (None, _) => false };
                 let fits_caller = match (handler_ns, pred.dc) { (Some(h), Some(dc)) => h + stall_ns + rtt + tol + 5 * MS < dc, (Some(_), None) => true, (None, _) => false };
                 match &res {
@@ -217,7 +223,7 @@ impl Part for Calls {
     type Case = Case;
     fn name(&self) -> &'static str { "calls" }
     fn rule(&self) -> &'static str {
-        "two networks with generated outbound/inbound default timeouts (None, 1 ms..60 s) on both ends, link delay 1-20 ms, 1-6 RPCs each with a generated timeout header (absent, 0, ms values, sub-ms values, any u64, u64::MAX, overflowing, non-numeric, padded, empty, leading zeros) and handler duration 0..120 s or never, optionally an executor stall (the virtual clock jumps 0.1-3 s at once 0-300 ms into the call, so the handler's completion and a deadline can become due at the same poll; then only 'a handler needing less than both deadlines is answered normally' is decided); oracle = refmodel::deadline (min over optional values; expected outcome in {Success, RequestTimeout, caller timeout} and virtual completion time), handler dropped at arrival+Ds, never later than the local inbound default; cases within 2x link delay of a boundary accept either neighbour; non-trivial = a default and a (parsable) header both present and different, or an unparsable header with a default; distinct by case"
+        "two networks with generated outbound/inbound default timeouts (None, 1 ms..60 s) on both ends, link delay 1-20 ms, 1-6 RPCs each with a generated timeout header (absent, 0, ms values, sub-ms values, any u64, u64::MAX, overflowing, non-numeric, padded, empty, leading zeros) and handler duration 0..120 s or never, spent in one wait or in many waits of 2-50 ms each (a handler that keeps being polled), optionally an executor stall (the virtual clock jumps 0.1-3 s at once 0-300 ms into the call, so the handler's completion and a deadline can become due at the same poll; then only 'a handler needing less than both deadlines is answered normally' is decided); oracle = refmodel::deadline (min over optional values; expected outcome in {Success, RequestTimeout, caller timeout} and virtual completion time), handler dropped at arrival+Ds, never later than the local inbound default; cases within 2x link delay of a boundary accept either neighbour; non-trivial = a default and a (parsable) header both present and different, or an unparsable header with a default; distinct by case"
     }
     fn strategy(&self, _t: Tier) -> BoxedStrategy<Case> {
         let handler = prop_oneof![
@@ -228,7 +234,7 @@ impl Part for Calls {
         ];
         // stalls: mostly "starts while the handler runs and ends after the deadline"
         let stall = prop_oneof![5 => Just(None), 2 => (0u16..300, 100u16..3000).prop_map(Some)];
-        let call = (any::<bool>(), header(), handler, stall).prop_map(|(from_a, header, handler_ms, stall)| Call { from_a, header, handler_ms, stall });
+        let call = (any::<bool>(), header(), handler, stall, prop::option::weighted(0.3, 2u8..50)).prop_map(|(from_a, header, handler_ms, stall, slice_ms)| Call { from_a, header, handler_ms, stall, slice_ms });
         ((default_ms(), default_ms()), (default_ms(), default_ms()), 1u8..21, prop::collection::vec(call, 1..7))
             .prop_map(|(a, b, link_delay_ms, calls)| Case { a, b, link_delay_ms, calls })
             .boxed()
@@ -247,6 +253,10 @@ pub struct QueuedCase {
     pub out_default_ms: Option<u32>,
     pub header_ms: Option<u32>,
     pub link_delay_ms: u8,
+    /// the calling application's own outbound middleware lets only this many calls through at a time
+    /// (the others wait inside that layer)
+    #[serde(default)]
+    pub app_gate: Option<u8>,
 }
 
 pub struct Queued;
@@ -254,13 +264,13 @@ impl Part for Queued {
     type Case = QueuedCase;
     fn name(&self) -> &'static str { "queued-calls" }
     fn rule(&self) -> &'static str {
-        "callee grants 1-3 concurrent request streams; 2-8 RPCs with slow handlers (0.2-6 s) start together on one connection, so some wait for stream credit; the caller has an outbound default and/or the calls carry a timeout header (50 ms-3 s); oracle: the calling side's deadline Dc = min(default, header) covers the whole call: every call returns no later than Dc (+ timer granularity), calls whose handler needs more than Dc end with an error; non-trivial = more calls than streams and at least one call still queued at its deadline; distinct by case"
+        "callee grants 1-3 (or 100) concurrent request streams, and/or the calling application's own outbound middleware (Builder::outbound_request_layer) lets only 1-2 calls through at a time; 2-8 RPCs with slow handlers (0.2-6 s) start together on one connection, so some wait for stream credit or inside the application's layer; the caller has an outbound default and/or the calls carry a timeout header (50 ms-3 s); oracle: the calling side's deadline Dc = min(default, header) covers the whole call: every call returns no later than Dc (+ timer granularity), calls whose handler needs more than Dc end with an error; non-trivial = more calls than streams and at least one call still queued at its deadline; distinct by case"
     }
     fn strategy(&self, _t: Tier) -> BoxedStrategy<QueuedCase> {
         let ms = || prop_oneof![2 => 50u32..600, 1 => 600u32..3000];
-        (1u8..4, prop::collection::vec(200u32..6000, 2..9), prop::option::of(ms()), prop::option::of(ms()), 1u8..15)
-            .prop_filter_map("needs a caller-side deadline", |(stream_limit, handlers_ms, out_default_ms, header_ms, link_delay_ms)| {
-                (out_default_ms.is_some() || header_ms.is_some()).then_some(QueuedCase { stream_limit, handlers_ms, out_default_ms, header_ms, link_delay_ms })
+        (prop_oneof![2 => 1u8..4, 1 => Just(100u8)], prop::collection::vec(200u32..6000, 2..9), prop::option::of(ms()), prop::option::of(ms()), 1u8..15, prop::option::weighted(0.4, 1u8..3))
+            .prop_filter_map("needs a caller-side deadline", |(stream_limit, handlers_ms, out_default_ms, header_ms, link_delay_ms, app_gate)| {
+                (out_default_ms.is_some() || header_ms.is_some()).then_some(QueuedCase { stream_limit, handlers_ms, out_default_ms, header_ms, link_delay_ms, app_gate })
             })
             .boxed()
     }
@@ -269,6 +279,9 @@ impl Part for Queued {
         run_sim(3, case.link_delay_ms.max(1) as u64, |sim| async move {
             let mut sa = NodeSpec::new(0);
             sa.config.outbound_request_timeout_ms = case.out_default_ms.map(|v| v as u64);
+            if let Some(p) = case.app_gate {
+                sa.outbound_layer = Some(OutboundLayer { gate: Some(std::sync::Arc::new(tokio::sync::Semaphore::new(p.max(1) as usize))), add_header: None });
+            }
             let mut sb = NodeSpec::new(1);
             sb.config.quic.as_mut().unwrap().max_concurrent_bidi_streams = Some(case.stream_limit as u64);
             for s in [&mut sa, &mut sb] {
